@@ -32,6 +32,11 @@ def extra_checks(ft, tier, seed):
             out.append({"name": "finding." + f, "status": "known", "kind": "known finding (open)", "what": r["witness"]})
         elif "error" in r:
             out.append({"name": "finding." + f, "status": "error", "detail": r["error"]})
+    r5 = harness.run_json("bounded/findings_r5.py", ["plain-subclass-dependant"])
+    if r5.get("reproduces"):
+        out.append({"name": "finding.plain-subclass-dependant", "status": "known", "kind": "known finding (open)", "what": r5["witness"]})
+    elif "error" in r5:
+        out.append({"name": "finding.plain-subclass-dependant", "status": "error", "detail": r5["error"]})
     return out
 
 
